@@ -51,6 +51,14 @@ type wPolicy struct {
 	RootSigners    []int
 	Files          []*wFile // "targets" first when present
 	Globals        []wGlobal
+	Hooks          []wHook // C20: pre-commit hooks declared in the root of trust
+}
+
+type wHook struct {
+	Name    string
+	Pids    []int
+	BlobID  string
+	Timeout int
 }
 
 type wAuthz struct {
@@ -235,6 +243,15 @@ func (p *wPolicy) rootMetadata() *tufv02.RootMetadata {
 			tids = append(tids, poolKeyN(k).SSLib.KeyID)
 		}
 		r.Roles[tuf.TargetsRoleName] = tufv02.Role{PrincipalIDs: set.NewSetFromItems(tids...), Threshold: p.TargetsThr}
+	}
+	for _, h := range p.Hooks {
+		ids := []string{}
+		for _, i := range h.Pids {
+			ids = append(ids, personID(i))
+		}
+		if _, err := r.AddHook([]tuf.HookStage{tuf.HookStagePreCommit}, h.Name, ids, map[string]string{"gitBlob": h.BlobID}, tuf.HookEnvironmentLua, h.Timeout); err != nil {
+			panic(err)
+		}
 	}
 	for _, g := range p.Globals {
 		if g.Kind == "threshold" {
